@@ -41,7 +41,16 @@ def concretise(scs, lits) -> str:
     for sc in scs:
         i, ck = sc["id"], sc["ck"]
         ps = _params_src(sc, lits)
-        if ck == "function":
+        if ck == "docfunction":
+            doc = ['    """Summary.', "", "    Parameters", "    ----------"]
+            for p in sc["params"]:
+                if p["kind"] in ("vararg", "kwarg"):
+                    continue
+                lit = lits[p["lit"] - 1] if p["lit"] else None
+                doc += [f"    {p['name']} : {ANN_BY_T[lit['t']] if lit else 'int'}", f"        The {p['name']}."]
+            doc.append('    """')
+            out += [f"def f{i}({ps}):", *doc, "    ...", ""]
+        elif ck == "function":
             out += [f"def f{i}({ps}): ...", ""]
         else:
             recv = {"method": "self", "ctor": "self", "classmethod": "cls", "static": "", "starmethod": "", "starctor": "", "newmethod": "cls"}[ck]
@@ -55,7 +64,7 @@ def concretise(scs, lits) -> str:
 def observe(sc, stubs: Stubs, idx) -> dict:
     i, ck = sc["id"], sc["ck"]
     none = {"missing": True, "stub": [], "json": []}
-    if ck == "function":
+    if ck in ("function", "docfunction"):
         tops = stubs.top(f"f{i}")
         if len(tops) != 1:
             return none
@@ -103,7 +112,18 @@ def main(v: Verdict) -> None:
     src = concretise(scs, lits)
     pkg = write_pkg({"__init__.py": "", f"{MOD}.py": src}, PKG)
     runs = [run_cli(pkg, Opts(nc=False)), ] if TIER == "quick" else [run_cli(pkg, Opts(nc=False)), run_cli(pkg, Opts(nc=True))]
+    # the documented functions under the NumPy style, with either type source preferred
+    doc_runs = [run_cli(pkg, Opts(docstyle="NUMPYDOC", tsp="DOCSTRING")), run_cli(pkg, Opts(docstyle="NUMPYDOC", tsp="CODE"))]
     obs = []
+    for r in doc_runs:
+        if r.exit != "ok" or r.api() is None:
+            v.extra.setdefault("unobservable", []).append({"run": r.opts.key(), "exit": r.exit, "exc": r.exc, "frame": r.frame})
+            continue
+        stubs = Stubs(r)
+        idx = api_index(r.api())
+        for sc in scs:
+            if sc["ck"] == "docfunction":
+                obs.append({"id": f"{r.opts.key()}#{sc['id']}", "sc": {k2: sc[k2] for k2 in ("ck", "ann", "selfish", "params")}, "obs": observe(sc, stubs, idx)})
     for r in runs:
         if r.exit != "ok" or r.api() is None:
             v.extra.setdefault("unobservable", []).append({"run": r.opts.key(), "exit": r.exit, "exc": r.exc, "frame": r.frame})
